@@ -68,15 +68,30 @@ def gen_case(rnd, i):
         x0["S0"] = float(rnd.randint(1, 9))
         kT = rnd.randint(1, n - 3)
         cval = float("%.4g" % rnd.uniform(10, 50))
-        freq = "start" if rnd.random() < 0.2 else repr(kT * dt)
-        copy_counter = has_bc and freq != "start" and rnd.random() < 0.6
+        # the scheduled time is given as text, as a number, or as "start"; the first grid point (time 0) is a scheduled time too
+        u_ = rnd.random()
+        if u_ < 0.15:
+            freq = "start"
+        elif u_ < 0.3:
+            kT = 0
+            freq = rnd.choice([0.0, 0, "0.0", "0"])
+        elif u_ < 0.6:
+            freq = kT * dt            # a float
+        else:
+            freq = repr(kT * dt)
+        copy_counter = has_bc and freq != "start" and kT > 0 and rnd.random() < 0.6
         if copy_counter:
             # the scheduled rule copies the running dt counter: a rule that keeps firing after its time would keep changing S0
             rules.append({"type": "assignment", "target": "S0", "ast": ["+", ["sp", "Bc"], ["num", cval]], "frequency": freq})
+        elif kT == 0 and freq != "start":
+            # scheduled at the first grid point with a right-hand side that reads a reacting species: the rule fires once, at the
+            # initial state, and S0 keeps that value (a rule mistaken for a repeated one would keep following X)
+            rules.append({"type": "assignment", "target": "S0", "ast": ["+", ["sp", "X"], ["num", cval]], "frequency": freq})
+            cval = float(x0["X"]) + cval
         else:
             rules.append({"type": "assignment", "target": "S0", "ast": ["num", cval], "frequency": freq})
         feats.append("schedule")
-        sched = {"T": 0.0 if freq == "start" else kT * dt, "c": cval, "init": x0["S0"], "copy_counter": copy_counter, "k": kT}
+        sched = {"T": 0.0 if (freq == "start" or kT == 0) else kT * dt, "c": cval, "init": x0["S0"], "copy_counter": copy_counter, "k": kT}
     else:
         sched = None
     if has_bc:
